@@ -5,7 +5,7 @@
    user notifier, and never otherwise.  (For histories that also mutate the object graph the hypothesis
    is property C08.) *)
 From Coq Require Import ZArith List Bool Arith PeanoNat Lia.
-From TV Require Import C09.Model C09.Law C09.Proofs C09.Dyn C09.DynCount C09.DynSlot C12.Model C12.Proofs.
+From TV Require Import C09.Model C09.Law C09.Proofs C09.Dyn C09.DynCount C09.DynSlot C09.DynAdd C12.Model C12.Proofs.
 Import ListNotations.
 
 Section Compose.
@@ -115,5 +115,58 @@ Section ComposeDyn.
     - assert (ncalls k calls = 0%nat) as ->.
       { destruct (Nat.eq_dec (ncalls k calls) 1) as [E|E]; [|lia]. apply Iff, T in E. discriminate. }
       split; [intros N; elim N; apply Vl; reflexivity|]. split; [intros _; split; [reflexivity|apply Vl; reflexivity]|lia].
+  Qed.
+
+  (* the same from any "exactly once iff matched" statement about the calls of one step *)
+  Lemma faithful_of_calls (h : heap) (R : list reg) (k : key) (sg : obsv) (calls : list key) :
+    (ncalls k calls <= 1)%nat ->
+    (ncalls k calls = 1%nat <-> exists g x, In (k, g, x) R /\ l_matched h g x sg = true) ->
+    forall (cs : C12.Model.state W) (w' : W),
+      (touched_by h R k sg = false -> view (world cs) = view w') ->
+      faithful W view cs (Mut w' (touched_by h R k sg) (ncalls k calls)).
+  Proof.
+    intros Le Iff cs w' Vl.
+    assert (touched_by h R k sg = true <-> exists g x, In (k, g, x) R /\ l_matched h g x sg = true) as T.
+    { unfold touched_by. rewrite existsb_exists. split.
+      - intros ([[k' g] x] & Hin & Q). apply andb_true_iff in Q. destruct Q as [Qk M]. apply key_eqb_spec in Qk. subst.
+        exists g, x. split; assumption.
+      - intros (g & x & Hin & M). exists (k, g, x). split; [exact Hin|]. rewrite key_eqb_refl, M. reflexivity. }
+    cbn [faithful]. destruct (touched_by h R k sg) eqn:Tb.
+    - assert (ncalls k calls = 1%nat) as -> by (apply Iff, T; reflexivity).
+      split; [intros _; lia|]. split; [discriminate|lia].
+    - assert (ncalls k calls = 0%nat) as ->.
+      { destruct (Nat.eq_dec (ncalls k calls) 1) as [E|E]; [|lia]. apply Iff, T in E. discriminate. }
+      split; [intros N; elim N; apply Vl; reflexivity|]. split; [intros _; split; [reflexivity|apply Vl; reflexivity]|lia].
+  Qed.
+
+  (* scalar changes AFTER any admissible history of graph mutations and add_trait: faithful w.r.t. the registrations
+     matched on the heap as it is now *)
+  Theorem changes_are_faithful_on_the_current_heap :
+    forall (d : dstate) (R : list reg) o f s' ob (k : key),
+      dstate_inv d R -> wfH (st_hooks (d_st d)) ->
+      C09.Model.step (d_heap d) (d_st d) (Change o f) = (s', ob) ->
+      forall (cs : C12.Model.state W) (w' : W),
+        (touched_by (d_heap d) R k (o, f) = false -> view (world cs) = view w') ->
+        faithful W view cs (Mut w' (touched_by (d_heap d) R k (o, f)) (ncalls k (o_calls ob))).
+  Proof.
+    intros d R o f s' ob k I Wf S. destruct (dyn_once_per_change d R o f s' ob k I Wf S) as [Le Iff].
+    apply (faithful_of_calls (d_heap d) R k (o, f) (o_calls ob) Le Iff).
+  Qed.
+
+  (* obj.add_trait: the property's handler is called iff one of its registrations matches the object's trait_added.
+     A Property's own graphs never do (they name the dependency, the trait_added node is the maintainers' extra graph), so
+     [touched_by] is false for them and the step is faithful exactly when the getter's view does not depend on whether the
+     optional dependency is defined -- see design.d/C12.md, candidate finding F24. *)
+  Theorem add_trait_is_faithful_iff_matched :
+    forall (h hrun : heap) (R : list reg) (H : hooks) (s : C09.Model.state) x f H' calls (k : key),
+      dinv h H R -> wfH H -> dead_handlers s = [] -> dead_objs s = [] ->
+      run_ta_notifiers hrun s x f (H (x, F_TA)) H [] = (H', calls, None) ->
+      forall (cs : C12.Model.state W) (w' : W),
+        (touched_by h R k (x, F_TA) = false -> view (world cs) = view w') ->
+        faithful W view cs (Mut w' (touched_by h R k (x, F_TA)) (ncalls k calls)).
+  Proof.
+    intros h hrun R H s x f H' calls k I Wf Dh Do Rn.
+    destruct (add_trait_calls h hrun R H s x f H' calls k I Wf Dh Do Rn) as [Le Iff].
+    apply (faithful_of_calls h R k (x, F_TA) calls Le Iff).
   Qed.
 End ComposeDyn.
